@@ -21,6 +21,7 @@ RULE = (
     "snapshot; distinct by the case."
 )
 ASSUMPTIONS = [
+    'results derived from a subpath view of x (other + subpath, Path(copy(subpath)), Path(subpath * M)) are held to the same independence as Path(subpath)',
     "value snapshot = public state only: coordinates of stored points, segment kinds, transform entries, paint values, "
     "stroke width, id, the values dictionary, shape attributes, children recursively (no private caches)",
 ]
